@@ -23,7 +23,13 @@ def main():
         first = m.get("checks_fired_when_first_confirmed", sorted(m.get("checks_fired", {})))
         t3.append("| %s | %s | %s | %s |" % (m["name"], ",".join(first) or "—", ",".join(sorted(m.get("checks_fired", {}))) or "—",
                                              (m.get("summary") or m.get("needs") or "").replace("|", "/").replace("\n", " ")[:170]))
-    for tag, rows in (("fixes", t1), ("known", t2), ("seeds", t3)):
+    t4 = ["| refactoring | checks silent | alarms (false alarms of the machinery) | change |", "|---|---|---|---|"]
+    for d in sorted(glob.glob(os.path.join(HERE, "refactors/*/meta.json"))):
+        m = json.load(open(d))
+        al = sorted(set(m.get("checks_fired", {})) | set("%s(inconclusive)" % k for k in m.get("checks_analysis_error", {})))
+        t4.append("| %s | %s | %s | %s |" % (m["name"], "yes" if m.get("silent") else "no", ",".join(al) or "—",
+                                             (m.get("summary") or "").replace("|", "/").replace("\n", " ")[:170]))
+    for tag, rows in (("fixes", t1), ("known", t2), ("seeds", t3), ("refactors", t4)):
         block = "<!-- GEN:%s -->\n%s\n<!-- /GEN:%s -->" % (tag, "\n".join(rows), tag)
         pat = re.compile(r"<!-- GEN:%s -->.*?<!-- /GEN:%s -->" % (tag, tag), re.S)
         if pat.search(s):
